@@ -10,6 +10,7 @@ from __future__ import annotations
 import os
 import sys
 
+_THREAD_VARS = ("OMP_NUM_THREADS", "OPENBLAS_NUM_THREADS", "MKL_NUM_THREADS", "NUMEXPR_NUM_THREADS")
 PACKAGES = ("cirq-core", "cirq-google", "cirq-ionq", "cirq-aqt", "cirq-pasqal")
 VERIF_DIR = os.path.dirname(os.path.dirname(os.path.abspath(__file__)))
 
@@ -27,9 +28,14 @@ def reexec_with_fixed_hashseed() -> None:
     show that results do not depend on it either).
     """
     want = os.environ.get("VERIF_HASHSEED", "0")
-    if os.environ.get("PYTHONHASHSEED") != want:
+    threads_ok = all(os.environ.get(k) == "1" for k in _THREAD_VARS)
+    if os.environ.get("PYTHONHASHSEED") != want or not threads_ok:
         env = dict(os.environ)
         env["PYTHONHASHSEED"] = want
+        # one BLAS/OpenMP thread per process: the runner already uses one process per core, and
+        # thread pools inside 14 workers fight each other (a 64x64 matmul took 4 ms instead of 20 us)
+        for k in _THREAD_VARS:
+            env[k] = "1"
         os.execve(sys.executable, [sys.executable] + sys.argv, env)
 
 
